@@ -10,7 +10,7 @@ site    := unary | init | produce | exchange
 debug   := 0 | 1
 outcome := ret <err> | panic <pv>
 pv      := str x<hex> | int <n> | err <err> | nil
-err     := rpc xTY xMSG xKIND | notimpl xMETHOD xMSG | pv xMSG | lost xREASON | drain | cap xMSG
+err     := rpc xTY xMSG xKIND xTRACEBACK xREQUESTID | notimpl xMETHOD xMSG | pv xMSG | lost xREASON | drain | cap xMSG
          | plain xMSG | wrap xPFX <err> | join <err> <err>
          | custom <variant> xMSG xKIND xTYPE
 variant := val | ptr | kind | type | both      (harness error types: with/without ErrorKind()/ErrorType())
@@ -42,10 +42,10 @@ def parseErr : Nat → List String → Option (GoErr × List String)
   | 0, _ => none
   | fuel + 1, ws =>
     match ws with
-    | "rpc" :: a :: b :: c :: rest =>
-      match strOfHex a, strOfHex b, strOfHex c with
-      | some ty, some msg, some kind => some (.rpc ty msg kind, rest)
-      | _, _, _ => none
+    | "rpc" :: a :: b :: c :: d :: e :: rest =>
+      match strOfHex a, strOfHex b, strOfHex c, strOfHex d, strOfHex e with
+      | some ty, some msg, some kind, some tb, some rid => some (.rpc ty msg kind tb rid, rest)
+      | _, _, _, _, _ => none
     | "notimpl" :: a :: b :: rest =>
       match strOfHex a, strOfHex b with
       | some m, some msg => some (.notImpl m msg, rest)
